@@ -66,6 +66,81 @@ fn reparse(doc: &[u8]) -> Model {
     r
 }
 
+// ---- odd attribute syntax: reference tokenizer for the inside of a start tag (WHATWG 13.2.5.32 - 13.2.5.40) ----
+fn ref_parse(s: &[u8]) -> Option<(Model, bool)> {
+    #[derive(PartialEq)]
+    enum St { BeforeName, Name, AfterName, BeforeValue, Dq, Sq, Unq, AfterQuoted, SelfClosing }
+    let mut st = St::BeforeName;
+    let mut attrs: Model = vec![];
+    let mut input: Vec<u8> = s.to_vec();
+    input.push(b'>');
+    let mut i = 0;
+    let ws = |c: u8| matches!(c, b' ' | b'\t' | b'\n' | b'\x0c' | b'\r');
+    while i < input.len() {
+        let c = input[i];
+        match st {
+            St::BeforeName => {
+                if ws(c) { i += 1; } else if c == b'/' { st = St::SelfClosing; i += 1; } else if c == b'>' { return Some((attrs, false)); }
+                else if c == b'=' { attrs.push(("=".into(), String::new())); st = St::Name; i += 1; }
+                else { attrs.push((String::new(), String::new())); st = St::Name; }
+            }
+            St::Name => {
+                if ws(c) || c == b'/' || c == b'>' { st = St::AfterName; } else if c == b'=' { st = St::BeforeValue; i += 1; }
+                else { attrs.last_mut().unwrap().0.push(c.to_ascii_lowercase() as char); i += 1; }
+            }
+            St::AfterName => {
+                if ws(c) { i += 1; } else if c == b'/' { st = St::SelfClosing; i += 1; } else if c == b'=' { st = St::BeforeValue; i += 1; }
+                else if c == b'>' { return Some((attrs, false)); } else { attrs.push((String::new(), String::new())); st = St::Name; }
+            }
+            St::BeforeValue => {
+                if ws(c) { i += 1; } else if c == b'"' { st = St::Dq; i += 1; } else if c == b'\'' { st = St::Sq; i += 1; }
+                else if c == b'>' { return Some((attrs, false)); } else { st = St::Unq; }
+            }
+            St::Dq => { if c == b'"' { st = St::AfterQuoted; } else { attrs.last_mut().unwrap().1.push(c as char); } i += 1; }
+            St::Sq => { if c == b'\'' { st = St::AfterQuoted; } else { attrs.last_mut().unwrap().1.push(c as char); } i += 1; }
+            St::Unq => { if ws(c) { st = St::BeforeName; i += 1; } else if c == b'>' { return Some((attrs, false)); } else { attrs.last_mut().unwrap().1.push(c as char); i += 1; } }
+            St::AfterQuoted => { if ws(c) { st = St::BeforeName; i += 1; } else if c == b'/' { st = St::SelfClosing; i += 1; } else if c == b'>' { return Some((attrs, false)); } else { st = St::BeforeName; } }
+            St::SelfClosing => { if c == b'>' { return Some((attrs, true)); } else { st = St::BeforeName; } }
+        }
+    }
+    None // the tag is never closed (unterminated quote): no start tag token
+}
+
+const SYNTAX: &[u8] = b"aB= \"'/";
+
+pub fn run_syntax(max_len: usize, rep: &mut AttrReport) {
+    fn rec(buf: &mut Vec<u8>, max_len: usize, rep: &mut AttrReport) {
+        if rep.violations.len() >= 5 { return; }
+        let mut doc = b"<x ".to_vec();
+        doc.extend_from_slice(buf);
+        doc.push(b'>');
+        let want = ref_parse(buf);
+        // every 1-cut chunking of the tag
+        for cut in std::iter::once(None).chain((1..doc.len()).map(Some)) {
+            rep.cases += 1;
+            let seen = std::rc::Rc::new(std::cell::RefCell::new(vec![]));
+            let s2 = seen.clone();
+            let settings = Settings::new().append_element_content_handler(element!("x", move |el| {
+                s2.borrow_mut().push((el.attributes().iter().map(|a| (a.name(), a.value())).collect::<Model>(), el.is_self_closing()));
+                Ok(())
+            }));
+            let mut rw = HtmlRewriter::new(settings, |_: &[u8]| {});
+            let ok = match cut { Some(c) => rw.write(&doc[..c]).is_ok() && rw.write(&doc[c..]).is_ok(), None => rw.write(&doc).is_ok() } && rw.end().is_ok();
+            let got = seen.borrow().clone();
+            let want_v: Vec<(Model, bool)> = want.clone().into_iter().collect();
+            if !ok || got != want_v {
+                if rep.violations.len() < 5 {
+                    rep.violations.push(format!("{{\"what\":\"attributes() / is_self_closing() differ from the syntactic attributes of the tag (reference: WHATWG attribute states)\",\"input\":{:?},\"cuts\":{},\"detail\":{:?}}}", String::from_utf8_lossy(&doc), cut.map_or("null".to_string(), |c| format!("[{c}]")), format!("got {:?} want {:?}", got, want_v)));
+                }
+                return;
+            }
+        }
+        if buf.len() == max_len { return; }
+        for &c in SYNTAX { buf.push(c); rec(buf, max_len, rep); buf.pop(); }
+    }
+    rec(&mut vec![], max_len, rep);
+}
+
 pub struct AttrReport { pub cases: u64, pub violations: Vec<String> }
 fn viol(what: &str, tag: &str, script: &[Op], detail: String) -> String {
     format!("{{\"what\":{:?},\"input\":{:?},\"script\":{:?},\"detail\":{:?}}}", what, tag, format!("{:?}", script), detail)
@@ -73,6 +148,7 @@ fn viol(what: &str, tag: &str, script: &[Op], detail: String) -> String {
 
 pub fn run_attrs(max_attrs: usize, max_ops: usize) -> AttrReport {
     let mut rep = AttrReport { cases: 0, violations: vec![] };
+    run_syntax(if max_attrs >= 4 { 7 } else { 6 }, &mut rep);
     let mut tags: Vec<(String, Model)> = vec![];
     fn rec(cur: &mut Vec<usize>, max: usize, tags: &mut Vec<(String, Model)>) {
         let mut s = String::from("<x");
